@@ -1,10 +1,12 @@
 //! Reference models. They never call Kolibrie code.
 
+pub mod termdb;
 pub mod window;
 
 /// Self-tests of the reference models against hand-computed micro cases.
 pub fn selftest() -> Vec<String> {
     let mut errs = Vec::new();
     errs.extend(window::selftest());
+    errs.extend(termdb::selftest());
     errs
 }
